@@ -39,18 +39,19 @@ type ResultSet struct {
 }
 
 type MemDB struct {
-	mu        sync.Mutex
-	Quote     byte
-	Committed map[string]*MemTable
-	working   map[string]*MemTable
-	inTx      bool
-	Log       []DrvCall
-	calls     int // Begin/Query/Exec/Commit calls so far
-	FailAt    int // 1-based; 0 = never
-	CancelAt  int // cancel the context when call CancelAt has been processed; 0 = never
-	cancel    context.CancelFunc
-	Result    *ResultSet
-	rollbackC chan struct{}
+	mu         sync.Mutex
+	Quote      byte
+	Committed  map[string]*MemTable
+	working    map[string]*MemTable
+	inTx       bool
+	Log        []DrvCall
+	calls      int // Begin/Query/Exec/Commit calls so far
+	FailAt     int // 1-based; 0 = never
+	NextFailAt int // the query made as call NextFailAt succeeds but its rows fail on the first Next; 0 = never
+	CancelAt   int // cancel the context when call CancelAt has been processed; 0 = never
+	cancel     context.CancelFunc
+	Result     *ResultSet
+	rollbackC  chan struct{}
 }
 
 func copyTables(m map[string]*MemTable) map[string]*MemTable {
@@ -505,6 +506,9 @@ func (c *memConn) QueryContext(ctx context.Context, query string, args []driver.
 		return nil, errInjected
 	}
 	defer m.afterStep()
+	if m.NextFailAt != 0 && m.calls == m.NextFailAt {
+		return &memRows{rs: &ResultSet{Names: []BStr{"name"}, Types: []BStr{"TEXT"}, ErrAt: 0}}, nil
+	}
 	if m.Result != nil {
 		return &memRows{rs: m.Result}, nil
 	}
